@@ -60,9 +60,12 @@ func c11Rules(p *core.Prog, r *core.Run) {
 	r.Check("C11.GRAMMAR", "parseConfig:grammar", pt == wantP, p.Pos(parse.Pos()), "parseConfig reads: %s (expected %s); the extensions that follow inside the length-prefixed contents are skipped with them", pt, wantP)
 	lt := normTokens(builderTokens(p, list, newBuilder(list), nil, 0))
 	okL := strings.HasPrefix(lt, "p16{ loop{ bytes:") && strings.HasSuffix(lt, "} }") && strings.Count(lt, "bytes:") == 1 && !strings.Contains(lt, "u16:")
+	// (slices.Concat(configs...) is the configs one after the other, as given)
+	concat := lt == "p16{ bytes:Concat($p0) }"
+	okL = okL || concat
 	// each config goes in as it was given: the element of the argument itself,
 	// not a part of it and not a re-encoding
-	r.Check("C11.GRAMMAR", "ConfigList:element-as-given", lt == "p16{ loop{ bytes:$p0[] } }", p.Pos(list.Pos()), "the list's entries are the caller's configs themselves: %s", lt)
+	r.Check("C11.GRAMMAR", "ConfigList:element-as-given", lt == "p16{ loop{ bytes:$p0[] } }" || concat, p.Pos(list.Pos()), "the list's entries are the caller's configs themselves: %s", lt)
 	r.Check("C11.GRAMMAR", "ConfigList:grammar", okL, p.Pos(list.Pos()), "ConfigList emits ECHConfig<..2^16-1> as a builder length-prefixed block (overflow is an error, not a wrapped length): %s", lt)
 	// what the encoders return is what their builder holds: no way out hands
 	// back something else (nothing, for an empty list, say) as a success
@@ -96,6 +99,22 @@ func c11Rules(p *core.Prog, r *core.Run) {
 	}
 	plt := normTokens(parserTokens(p, plist, root))
 	r.Check("C11.GRAMMAR", "ParseConfigList:grammar", plt == "p16{ loop{ call:parseConfig(_) } }", p.Pos(plist.Pos()), "ParseConfigList reads: %s (a uint16-prefixed sequence of configs, each parsed by parseConfig on the child cursor)", plt)
+	// a list (and a config) is only returned after its length-prefixed frame was
+	// read: empty or truncated input is an error, not an empty list
+	for _, fn := range []*ssa.Function{plist, parse} {
+		for i, ret := range core.Returns(fn) {
+			if !lastResultNil(ret) {
+				continue
+			}
+			framed := false
+			for _, f := range p.Facts(ret.Block()) {
+				if f.Op == "true" && f.L != nil && f.L.Op == "call" && strings.Contains(f.L.Name, "cryptobyte.String).ReadUint16LengthPrefixed") {
+					framed = true
+				}
+			}
+			r.Check("C11.GRAMMAR", fmt.Sprintf("%s:framed#%d", p.FuncName(fn), i), framed, p.InstrPos(ret), "a successful return of %s lies behind a successful read of the uint16-prefixed frame (%v)", p.FuncName(fn), framed)
+		}
+	}
 	r.Tables["config_tokens"] = map[string]string{"Bytes": bt, "parseConfig": pt, "ConfigList": lt, "ParseConfigList": plt}
 	// the cipher-suite vector is read to its end
 	vectorLoopsRunDry(p, r, parse, "C11.SAFE.loops")
@@ -126,6 +145,39 @@ func c11Rules(p *core.Prog, r *core.Run) {
 					okInit = false
 				}
 				r.Check("C11.SAFE.fresh", "parseConfig:suites-storage@"+p.InstrPos(st), okInit, p.InstrPos(st), "the cipher-suite list of a parsed config is nil or grown from itself, not backed by storage supplied from outside: %s", short(v))
+				// every suite read is listed, as read: between the top of the
+				// suite loop and the append nothing decides but the reads themselves
+				// (a skipped suite changes which suites the server accepts, and a
+				// skip between the two halves of a suite misaligns the rest)
+				if selfAppend {
+					var hdr *ssa.BasicBlock
+					for h, body := range core.Loops(st.Parent()) {
+						if body[st.Block()] && (hdr == nil || core.Loops(st.Parent())[hdr][h]) {
+							hdr = h
+						}
+					}
+					extra := ""
+					if hdr != nil {
+						base := map[string]bool{}
+						for _, f := range p.Facts(hdr) {
+							base[f.String()] = true
+						}
+						for _, f := range p.EdgeFacts(hdr, hdr.Succs[0]) {
+							base[f.String()] = true
+						}
+						for _, f := range p.Facts(st.Block()) {
+							if base[f.String()] || (f.Op == "true" && f.L != nil && f.L.Op == "call" && strings.Contains(f.L.Name, "cryptobyte.String).Read")) {
+								continue
+							}
+							// (the loop's own "cursor not empty")
+							if f.Op == "false" && f.L != nil && f.L.Op == "call" && strings.HasSuffix(f.L.Name, "cryptobyte.String).Empty") {
+								continue
+							}
+							extra = f.String()
+						}
+					}
+					r.Check("C11.GRAMMAR", "parseConfig:every-suite@"+p.FuncName(st.Parent()), hdr != nil && extra == "", p.InstrPos(st), "every cipher suite read is appended (a condition that stands between: %s)", extra)
+				}
 			}
 			c, ok := st.Val.(*ssa.Call)
 			if !ok {
